@@ -33,6 +33,27 @@ def lean_disagreements(gen_fn, spec_fn, limit=40):
     return pairs, out
 
 
+def grid_pairs():
+    """A fixed grid of tag pairs (key, d, i) incl. int64 / time extremes, used when the regenerated function cannot be
+    evaluated in Lean (translator failure) so the search has to run on the implementation alone."""
+    I64MAX, I64MIN = 2 ** 63 - 1, -2 ** 63
+    vals_i = [0, 1, -2, 5, I64MAX, I64MIN, I64MAX - 1, I64MIN + 1]
+    vals_d = [0, 1, 2]
+    out = []
+    for ia in vals_i:
+        for ib in vals_i:
+            if ia != ib:
+                out.append(((1, 0, ia), (2, 0, ib)))
+    for da in vals_d:
+        for db in vals_d:
+            if da != db:
+                out.append(((1, da, 0), (2, db, 0)))
+                out.append(((1, da, 1), (2, db, 0)))
+    out.append(((1, 0, 0), (2, 0, 0)))
+    out.append(((2, 0, 0), (1, 0, 0)))
+    return out
+
+
 def replay_on_impl(order, pairs, impl=None):
     """Returns (ops_text, verdict_line) of the first sequence on which the implementation's answers are
     rejected by the specification monitor under the documented order, else None."""
